@@ -118,6 +118,92 @@ def teardown_rule(rep, prog):
     rep.floor("Ok(()) exits of radar::main", 1, len(ok_returns))
 
 
+def quit_reason_rule(rep, prog):
+    rid = rep.rule("R1b", "the quit reason that the clean-up unwraps is still set when the main loop is left: main resets `settings.quit` to None only once a new connection exists (under the Some arm of the reconnect result), and the reconnect helper returns Ok(None) only after setting it")
+    fn = prog.fns.get("radar::main")
+    helper = prog.fns.get("radar::init_tcp_reader")
+    if fn is None or helper is None:
+        rep.violation("R1b", "anchor:reconnect", "anchor missing: radar::main / radar::init_tcp_reader")
+        return
+    cfg = cfg_of(fn)
+
+    def quit_writes(f):
+        """[(block, 'Some' | 'None' | '?')] assignments to a place ending in the field `quit`"""
+        tmp = {}
+        out = []
+        for bi, b in enumerate(f["blocks"]):
+            for s_ in b["stmts"]:
+                if "assign" not in s_:
+                    continue
+                pl, rv = s_["assign"]
+                what = "?"
+                ag = rv.get("aggregate") if isinstance(rv, dict) else None
+                if ag and ag.get("kind") == "adt" and ag.get("adt") == "core::option::Option":
+                    what = "Some" if ag.get("variant") == 1 else "None"
+                elif isinstance(rv, dict) and "use" in rv:
+                    u = rv["use"].get("copy") or rv["use"].get("move")
+                    if u is not None and not u["proj"]:
+                        what = tmp.get(u["local"], "?")
+                    elif "const" in rv["use"] and str(rv["use"]["const"].get("text", "")).endswith("None"):
+                        what = "None"
+                if not pl["proj"]:
+                    tmp[pl["local"]] = what
+                elif pl["proj"][-1].get("name") == "quit":
+                    out.append((bi, what))
+        return out
+    # the Some arm of the match on the reconnect result
+    rty = helper["locals"][0]["ty"]
+    inner = None
+    try:
+        inner = rty["args"][0]          # Result<Option<X>, E> -> Option<X>
+    except Exception:
+        pass
+    some_targets = []
+    for bi, b in enumerate(fn["blocks"]):
+        t = b["term"]
+        if not (t and "switch" in t):
+            continue
+        for s_ in b["stmts"]:
+            if "assign" in s_ and isinstance(s_["assign"][1], dict) and "discr" in s_["assign"][1]:
+                pl = s_["assign"][1]["discr"]
+                if not pl["proj"] and fn["locals"][pl["local"]]["ty"] == inner:
+                    tm = {v: tb for v, tb in t["switch"]["targets"]}
+                    st_ = tm.get(1, t["switch"]["otherwise"] if 1 not in tm else None)
+                    if st_ is not None:
+                        some_targets.append(st_)
+    # only the reconnect inside the main loop counts (the first connection is made before the loop and dominates everything)
+    in_loops = set()
+    for tail, head in cfg.back_edges():
+        in_loops |= set(cfg.natural_loop(tail, head))
+    loop_calls = [i for i, p_, full, c in calls(fn) if p_ == "radar::init_tcp_reader" and i in in_loops]
+    some_targets = [t_ for t_ in some_targets if any(cfg.dominates(c_, t_) for c_ in loop_calls)]
+    writes = quit_writes(fn)
+    nones = [b for b, w in writes if w != "Some"]
+    rep.instance(rid, "main", sample={"writes_of_quit": writes, "some_arms_of_reconnect": some_targets})
+    if not some_targets:
+        rep.violation("R1b", "anchor:reconnect-match", "cannot find the match on the reconnect helper's result in radar::main")
+    for b in nones:
+        if not any(cfg.dominates(t_, b) for t_ in some_targets):
+            rep.violation("R1b", "main:quit-reset-without-connection", "radar::main clears the quit reason at %s on a path that does not have a new connection: if the operator quits at the reconnect screen the clean-up's unwrap() of the quit reason panics before the terminal is restored" % site_of_block(fn, b), site=site_of_block(fn, b))
+    # helper contract: every Ok(None) return is preceded by a write of Some(..) to quit with no later None
+    hw = quit_writes(helper)
+    hcfg = cfg_of(helper)
+    somes = [b for b, w in hw if w == "Some"]
+    none_rets = []
+    for bi, b in enumerate(helper["blocks"]):
+        for s_ in b["stmts"]:
+            if "assign" in s_ and isinstance(s_["assign"][1], dict):
+                ag = s_["assign"][1].get("aggregate")
+                if ag and ag.get("adt") == "core::result::Result" and ag.get("variant") == 0 and not s_["assign"][0]["proj"] and s_["assign"][0]["local"] == 0:
+                    # Ok(x): is x the None built just before?
+                    none_rets.append(bi)
+    rep.instance(rid, "helper", sample={"helper_sets_quit_in_blocks": somes, "ok_returns": none_rets})
+    if not somes:
+        rep.violation("R1b", "helper:never-sets-quit", "radar::init_tcp_reader never sets the quit reason, yet main relies on it being set when Ok(None) is returned")
+    if any(w == "None" for _b, w in hw):
+        rep.violation("R1b", "helper:clears-quit", "radar::init_tcp_reader clears the quit reason")
+
+
 def site_of_block(fn, b):
     for s in fn["blocks"][b]["stmts"]:
         sp = s.get("span")
@@ -196,6 +282,7 @@ def view_only_rule(rep, prog):
 def run(rep, tier, replay=None):
     prog = facts.load("std")
     teardown_rule(rep, prog)
+    quit_reason_rule(rep, prog)
     ui_panic_rule(rep, prog)
     cli_rule(rep, prog)
     view_only_rule(rep, prog)
